@@ -53,3 +53,13 @@ PROPS["C20"] = {
     "assumptions": ["a configuration file that does not parse as TOML is treated as absent (from_file falls back to defaults, as the source does)"],
     "partial": "",
 }
+
+PROPS["C17"] = {
+    "components": ["crypto"],
+    "trusted_base": TB_COMMON + [
+        "the functional laws of the primitives are ASSUMED in the theorems (structure fields of AEAD / Suite / SigScheme): decrypt-after-encrypt, 'what opens is the sealing' (deterministic AEAD with fixed nonce), deserialize-after-serialize, recover-after-sign; they are tested, not proved, on ChaCha20-Poly1305 / rust-bitcoin / secp256k1",
+        "cryptographic hardness (key commitment / collision resistance / unforgeability) is never proved: 'another id fails' and 'no forgery verifies' are reductions plus tests",
+    ],
+    "assumptions": ["consensus serialisation is canonical for the transactions the tower handles (tested)"],
+    "partial": "the two computational clauses (another id fails; no altered message/signature verifies) are reductions + labelled tests, not theorems",
+}
